@@ -19,7 +19,9 @@ from unittest.mock import patch
 import numpy as np
 
 from golem.core.adapter.adapter import IdentityAdapter
+from golem.core.dag.graph_verifier import GraphVerifier
 from golem.core.dag.verification_rules import DEFAULT_DAG_RULES
+from golem.core.optimisers.fitness import SingleObjFitness
 from golem.core.optimisers.genetic.gp_optimizer import EvoGraphOptimizer
 from golem.core.optimisers.genetic.gp_params import GPAlgorithmParameters
 from golem.core.optimisers.genetic.operators.base_mutations import MutationTypesEnum
@@ -174,12 +176,41 @@ class Metric:
         return self.value(g)
 
 
+class FeasibleFitness(SingleObjFitness):
+    """a user fitness class: valid only when the value was computed AND the solution is feasible (here: the primary value
+    is not an odd integer); infeasible solutions must be treated like failed evaluations"""
+
+    @property
+    def valid(self):
+        v = self.value
+        return v is not None and not (float(v).is_integer() and int(v) % 2 == 1)
+
+
+class FeasibilityObjective(Objective):
+    """an objective whose fitness objects are of a user subclass"""
+
+    def __call__(self, graph, **kwargs):
+        f = super().__call__(graph, **kwargs)
+        if isinstance(f, SingleObjFitness) and f.value is not None:
+            return FeasibleFitness(*f.values)
+        return f
+
+
 def make_objective(spec, log):
-    """spec = {'metrics': [kind...], 'multi': bool, 'faults': {...}}; faults apply to the first metric"""
+    """spec = {'metrics': [kind...], 'multi': bool, 'faults': {...}, 'fitness_subclass': bool}; faults apply to the first metric"""
     metrics = {}
     for i, kind in enumerate(spec['metrics']):
         metrics['m%d_%s' % (i, kind)] = Metric(kind, spec.get('faults') if i == 0 else None, log, primary=(i == 0))
-    return Objective(metrics, is_multi_objective=bool(spec.get('multi')))
+    cls = FeasibilityObjective if spec.get('fitness_subclass') else Objective
+    return cls(metrics, is_multi_objective=bool(spec.get('multi')))
+
+
+class SizeLimitVerifier(GraphVerifier):
+    """a user verifier that EXTENDS verify(): the configured rules and at most `limit` nodes"""
+    limit = 4
+
+    def verify(self, graph):
+        return super().verify(graph) and len(graph.nodes) <= self.limit
 
 
 # ----------------------------------------------------------------------------------------------
@@ -225,6 +256,13 @@ def make_optimiser(cfg, log, history_dir=None):
         rules.append(make_rule(cfg['rule']))
     gen = GraphGenerationParams(adapter=IdentityAdapter(), rules_for_constraint=rules,
                                 node_factory=DefaultOptNodeFactory(cfg.get('node_types') or NODE_TYPES))
+    if cfg.get('verifier_subclass'):
+        # the whole run is configured with a user subclass of the verifier (also inside the random graph factory)
+        sub = SizeLimitVerifier(rules, gen.adapter)
+        sub.limit = int(cfg['verifier_subclass'])
+        gen.verifier = sub
+        if hasattr(gen.random_graph_factory, 'verifier'):
+            gen.random_graph_factory.verifier = sub
     node_cls = FittedNode if cfg.get('fitted_nodes') else OptNode
     initial = [build_graph(s, node_cls) for s in INITIAL_GRAPHS[cfg.get('initial', 'two')]]
     cls = OPTIMISERS[cfg['optimiser']]
@@ -239,8 +277,9 @@ def fit_values(f):
 
 
 def ind_record(ind, verifier):
+    # "accepted by the configured verifier": both public entry points of the verifier must say so
     try:
-        ok = bool(verifier(ind.graph))
+        ok = bool(verifier(ind.graph)) and (bool(verifier.verify(ind.graph)) if hasattr(verifier, 'verify') else True)
     except Exception as ex:  # noqa
         ok = False
     po = ind.parent_operator
@@ -501,6 +540,22 @@ def unsatisfiable_generator_config(rng):
     cfg.update({'rule': ['max_nodes', 2, rng.choice(['false', 'raise'])], 'initial': 'single', 'max_depth': rng.choice([2, 3]),
                 'num_of_generations': rng.choice([2, 3]), 'early_stopping_iterations': None})
     cfg['objective'] = {'metrics': [rng.choice(['size', 'neg_size'])], 'multi': False}
+    return cfg
+
+
+def subclass_config(rng):
+    """user subclasses: a verifier that extends verify(), an objective whose fitness class overrides `valid`"""
+    cfg = random_config(rng, optimiser=rng.choice(['evo', 'evo', 'pop_random_mutation', 'random_search', 'random_mutation', 'surrogate']),
+                        multi=False)
+    cfg.pop('rule', None)
+    cfg.update({'num_of_generations': rng.choice([3, 4]), 'early_stopping_iterations': None})
+    if rng.random() < 0.5:
+        cfg.update({'verifier_subclass': rng.choice([3, 4]), 'initial': rng.choice(['single', 'two', 'chain', 'three']),
+                    'mutation': rng.choice([['single_add'], ['single_add', 'single_change'], ['growth', 'simple']])})
+        cfg['objective'] = {'metrics': [rng.choice(['neg_size', 'balance'])], 'multi': False}
+    else:
+        cfg['objective'] = {'metrics': [rng.choice(['size', 'depth', 'size'])], 'multi': False, 'fitness_subclass': True}
+        cfg['initial'] = rng.choice(['two', 'three', 'mixed_sizes', 'five'])
     return cfg
 
 
